@@ -133,7 +133,7 @@ def check_wrap(ctx, F):
             sl = lib.slice_back(f, ops, through_calls=False)
             for z in zero_defs(f, sl.locals):
                 zero_sites.append((f, z, what))
-    ctx.floor('GUARD-C05a:sinks', n_sinks, 6, 'ring-position sinks (write_head stores + ring writer positions)')
+    ctx.floor('GUARD-C05a:sinks', n_sinks, 3, 'ring-position sinks (write_head stores + ring writer positions)')
     seen = set()
     for f, z, what in zero_sites:
         k = (f.path, z['bb'], z.get('idx'))
